@@ -211,6 +211,9 @@ func blockSizes(ds Dataset, thorough bool) []int {
 	if ds.Kind == "big" {
 		return []int{shippedM}
 	}
+	if thorough && ds.N != 8 {
+		return []int{smallM}
+	}
 	return []int{smallM, shippedM}
 }
 
@@ -297,7 +300,18 @@ type harness struct {
 	raws map[string]map[string][]raw // "a|b|field" -> series -> raw rows of the filter read
 }
 
-func load(ds Dataset) (*harness, error) {
+// load builds the dataset; a transient fixture failure (seen once under extreme machine load: "snapshot in progress")
+// is retried on a fresh fixture.
+func load(ds Dataset) (h *harness, err error) {
+	for attempt := 0; attempt < 3; attempt++ {
+		if h, err = load1(ds); err == nil {
+			return h, nil
+		}
+	}
+	return nil, err
+}
+
+func load1(ds Dataset) (*harness, error) {
 	f, err := mini.Open(mini.Options{})
 	if err != nil {
 		return nil, err
@@ -1012,10 +1026,10 @@ func TestCheck(t *testing.T) {
 	vlib.Main(t, &vlib.Check{
 		ID: "C41", Level: "exploration",
 		Rule: "datasets x buffer sizes x requests, complete product within the bounds; one CASE = one (series, request) pair. " +
-			"Mask datasets: one series per non-empty subset of N adjacent nanosecond slots (quick N=6: 63 series; thorough N=8: 255 series), five fields each (f float, i integer, u unsigned, s string, b boolean; value pattern 3,-2,0,3,5,-2,1,4 so min/max/first/last differ and ties occur); " +
-			"placement/layout: quick {straddling the 1h shard-group boundary, even slots in TSM + odd slots in cache}; thorough that + {single shard, TSM} + {straddling, cache}. " +
-			"Requests per mask dataset: bounds = every [a,b) with 0<=a<b<=N (quick 21, thorough 36) x window (every,offset) in {(1,0),(2,0),(2,1),(3,0),(3,1),(1,1),(inf,0)} (period=every) x (field,aggregate) in {f,i,u}x{count,sum,mean,min,max,first,last} + {s,b}x{count,first,last} (27) x createEmpty {f,t} x timeColumn {none,_start,_stop} x forceAggregate {f,t} (t only for selectors), " +
-			"each run with reads.MaxPointsPerBlock=3 (const->var overlay: every table-buffer / cursor-array boundary is crossed with <=8 points) and with the shipped 1000 (quick: for 1000 only windows (2,1),(3,0) and fields f,i). " +
+			"Mask datasets: one series per non-empty subset of N adjacent nanosecond slots, five fields each (f float, i integer, u unsigned, s string, b boolean; value pattern 3,-2,0,3,5,-2,1,4 so min/max/first/last differ and ties occur). " +
+			"quick: N=6 (63 series) straddling the 1h shard-group boundary, even slots in TSM + odd slots in cache; thorough: that with N=8 (255 series) + N=7 (127 series) in a single shard, all in TSM. " +
+			"Requests per mask dataset: bounds = every [a,b) with 0<=a<b<=N (21 / 36 / 28) x window (every,offset) in {(1,0),(2,0),(2,1),(3,0),(3,1),(1,1),(inf,0)} (quick: (1,0),(2,1),(3,0),(inf,0)); period=every x (field,aggregate) in {f,i,u}x{count,sum,mean,min,max,first,last} + {s,b}x{count,first,last} (quick: fields f,i,s) x createEmpty {f,t} x timeColumn {none,_start,_stop} x forceAggregate {f,t} (t only for selectors), " +
+			"each run with reads.MaxPointsPerBlock=3 (const->var overlay: every table-buffer / cursor-array boundary is crossed with <=8 points) and with the shipped 1000 (thorough: on the N=8 dataset; quick: windows (2,1),(3,0) and fields f,i only). " +
 			"Structured dataset 'big' on the shipped buffer size: 3 series with points at {0}, {0,999,1000,1001}, {5,1999,2000,2400}, every=1ns, bounds [0,1000),[0,1001),[0,2500) (quick: the last two), fields f,i,s (quick f,s), same aggregate/createEmpty/timeColumn/forceAggregate product (up to 2500 windows per series). " +
 			"Oracle: reference computed from the rows ReadFilter returns through the same reader for the same bounds (see file header). non-trivial = (series, request) pairs whose series has >=1 raw row in the bounds (distinct by construction).",
 		Assumptions: []string{
@@ -1027,7 +1041,7 @@ func TestCheck(t *testing.T) {
 			"reads.MaxPointsPerBlock is turned from a constant into a variable by the build overlay (c41/shim.json); the code uses it only as a size. Findings that appear only with the small size are confirmed by the 'big' family on the shipped size where reachable",
 			"window (every,offset) pairs use period=every and non-negative offsets, the only form the planner pushes down (isPushableWindow)",
 		},
-		QuickBudgetS: 50, ThoroughBudgetS: 780,
+		QuickBudgetS: 70, ThoroughBudgetS: 780,
 		Run: func(c *vlib.Ctx) {
 			if reads.MaxPointsPerBlock != shippedM {
 				c.HarnessError(fmt.Sprintf("reads.MaxPointsPerBlock is %d at start, expected the shipped value %d", reads.MaxPointsPerBlock, shippedM))
